@@ -497,6 +497,19 @@ func runC15(c *Ctx) {
 	}
 	c15RetryAfterValue(c)
 	c15ExpiryClock(c)
+	// shared: the adapter's own re-request after a rejected resume starts from byte 0 (otherwise it repeats itself
+	// without bound and outside the retry counter: C02.R3), and every OID of a batch reaches the adapter at most once
+	// (consume-once bookkeeping of the batch response: C06.R1–R3) — two transfers of one object must not overlap
+	{
+		saved := c.RulePrefix
+		c.RulePrefix = saved + "C02/"
+		c02Resume(c)
+		c.RulePrefix = saved + "C06/"
+		if m2 := newTQModel(c); m2 != nil {
+			m2.loopDiscipline()
+		}
+		c.RulePrefix = saved
+	}
 }
 
 func filterObs(obs []Ob, rulePrefix string) []Ob {
